@@ -40,16 +40,36 @@ macro_rules! zv_harness {
     };
 }
 
+#[cfg(feature = "p_c13")]
 pub mod c13_serial;
+#[cfg(feature = "p_c20")]
 pub mod c20_numeric;
 pub mod kf;
+#[cfg(feature = "p_c08")]
 pub mod c08_concurrent;
+#[cfg(feature = "p_c16")]
 pub mod c16_tokens;
+#[cfg(feature = "p_c18")]
 pub mod c18_tasks;
+#[cfg(feature = "p_c07")]
 pub mod c07_pools;
+#[cfg(feature = "p_c03")]
 pub mod c03_blobstore;
+#[cfg(feature = "p_c09")]
 pub mod c09_intvec;
+#[cfg(feature = "p_c19")]
 pub mod c19_files;
+#[cfg(feature = "p_c05")]
 pub mod c05_trie;
+#[cfg(feature = "p_c06")]
 pub mod c06_hashmap;
+#[cfg(feature = "p_c17")]
 pub mod c17_cache;
+#[cfg(feature = "p_c15")]
+pub mod c15_parsers;
+#[cfg(feature = "p_c20")]
+pub mod c20_strings;
+#[cfg(feature = "p_c01")]
+pub mod c01_entropy;
+#[cfg(feature = "p_c02")]
+pub mod c02_compress;
